@@ -299,11 +299,21 @@ def rule_b(chk, f, enc):
            f'{len(want)} samples agree', discr='encoder-table')
     # --- decoder: how many extension bytes does it read for each length code?
     g = f.cfg()
-    plv = None
-    for n in walk_no_defs(f.node):
-        if isinstance(n, ast.Assign) and isinstance(n.targets[0], ast.Name) and src(n.value).replace(' ', '') in ('data[1]&127', 'data[1]&0x7f', 'data[1]&0x7F'):
-            plv = n.targets[0].id
-    need(plv, 'C17.b: decoder does not extract the 7-bit length code')
+    # the header is decoded for two sample second bytes (0xFE: masked, code 126; 0x7E: unmasked, code 126): the local that holds 126 in both runs when the
+    # classification starts is the length code, the one that is truthy in the first and falsy in the second is the mask flag
+    dv_ = f.params[1]
+    is_cls = lambda n: n.kind == 'test' and isinstance(n.ast, ast.Compare) and any(  # noqa: E731
+        isinstance(c, ast.Constant) and c.value in (125, 126, 127) for c in n.ast.comparators + [n.ast.left])
+    hdr = {}
+    for b1 in (0xFE, 0x7E):
+        got = concrete.envs_at(g, g.entry, {f'${dv_}[0]': 0x81, f'${dv_}[1]': b1, f'$len({dv_})': 100}, is_cls)
+        hdr[b1] = [e_ for _n, e_ in got]
+    need(hdr[0xFE] and hdr[0x7E], 'C17.b: decoder has no extended-length classification')
+    cands = [k for k, v in hdr[0xFE][0].items() if v == 126 and not isinstance(v, bool) and all(e_.get(k) == 126 for e_ in hdr[0xFE] + hdr[0x7E])]
+    need(cands, 'C17.b: decoder does not extract the 7-bit length code')
+    plv = cands[0]
+    flags = [k for k, v in hdr[0xFE][0].items() if v is not concrete.UNKNOWN and v and all(e_.get(k) is not concrete.UNKNOWN and e_.get(k) for e_ in hdr[0xFE])
+             and all(e_.get(k) is not concrete.UNKNOWN and not e_.get(k) for e_ in hdr[0x7E])]
     cls_tests = [n for n in g.nodes if n.kind == 'test' and plv in Q.names_used(n.ast) and isinstance(n.ast, ast.Compare) and
                  any(isinstance(c, ast.Constant) and c.value in (125, 126, 127) for c in n.ast.comparators + [n.ast.left])]
     need(cls_tests, 'C17.b: decoder has no extended-length classification')
@@ -331,11 +341,22 @@ def rule_b(chk, f, enc):
     ok = bool(em) and any(src(c).replace(' ', '') == f'tail.append({lv}>>i*8&255)' for c in calls_in(em[0]))
     chk.ob('b', enc.ref, 'the encoder emits the extended length big-endian, byte by byte', ok, loc(enc, enc.node), discr='encoder-big-endian')
     # mask bit / 7-bit mask
-    ok = any(isinstance(n, ast.Assign) and src(n.value).replace(' ', '') == 'data[1]&127' for n in walk_no_defs(f.node)) and \
-        any(isinstance(n, ast.Assign) and src(n.targets[0]) == 'masking' and '128' in src(n.value) and 'data[1]' in src(n.value) for n in walk_no_defs(f.node))
-    chk.ob('b', f.ref, 'decoder: low 7 bits are the length code, the high bit is the mask flag', ok, loc(f, f.node), discr='decoder-mask-bit')
-    ok = any(isinstance(n, ast.Assign) and src(n.value).replace(' ', '') == f'{codev}|128' for n in walk_no_defs(enc.node))
-    chk.ob('b', enc.ref, 'encoder: the mask flag is the high bit of the length byte', ok, loc(enc, enc.node), discr='encoder-mask-bit')
+    ok = bool(cands) and bool(flags)
+    chk.ob('b', f.ref, 'decoder: low 7 bits are the length code, the high bit is the mask flag', ok, loc(f, f.node), detail=f'length code in `{plv}`, mask flag in {flags}',
+           discr='decoder-mask-bit')
+    # (by evaluation: a 5-byte payload with and without masking; the first byte appended to the tail must be 5|128 resp. 5)
+    from sa import concrete
+    ge = enc.cfg()
+    apps = [n for n in ge.nodes if n.kind == 'stmt' and any(True for _r, _c in pat.method_calls(n.ast, 'append'))]
+    got_ = {}
+    for m_ in (True, False):
+        env_, at_ = concrete.run(enc, {enc.params[1]: concrete.Sized(5), (enc.params[2] if len(enc.params) > 2 else 'mask'): m_}, stop=lambda n, e: n in apps)
+        if at_ in apps:
+            c_ = [c for _r, c in pat.method_calls(at_.ast, 'append')][0]
+            got_[m_] = concrete.ev(c_.args[0], env_) if c_.args else None
+    ok = got_.get(True) == (5 | 128) and got_.get(False) == 5
+    chk.ob('b', enc.ref, 'encoder: the mask flag is the high bit of the length byte', ok, loc(enc, enc.node), detail=f'length byte of a 5-byte payload: masked {got_.get(True)}, unmasked {got_.get(False)}',
+           discr='encoder-mask-bit')
     # masked ⇒ key emitted and payload xored; unmasked ⇒ payload as is
     genc = enc.cfg()
     mp = enc.params[2]
